@@ -133,11 +133,16 @@ pub fn meta_pool(i: u8) -> Option<MetaMap> {
             let long: Vec<u8> = (0..700u32).map(|x| (x * 7 % 251) as u8).collect();
             m(&[("long", &long), ("a", &[]), ("b", &[b'b']), ("c", &[0; 9])])
         }
+        7 => {
+            // a meta whose serialized form is larger than 64 KiB
+            let big: Vec<u8> = (0..70_000u32).map(|x| (x * 13 % 253) as u8).collect();
+            m(&[("big", &big), ("v", &[7])])
+        }
         _ => m(&[("v", &[1])]),
     }
 }
 pub const META_POOL_SMALL: u8 = 4; // indexes 0..4 are used by the history engines
-pub const META_POOL_ALL: u8 = 7;
+pub const META_POOL_ALL: u8 = 8;
 
 /// Deterministic value bytes: a function of the op position, the length and the fill kind only
 pub fn value_bytes(op_idx: usize, vlen: u32, fill: u8) -> Vec<u8> {
